@@ -1,1 +1,374 @@
-//! harness AST and generators
+//! Harness AST, canonical renderer and bounded program generator.
+//! Programs are generated from this AST and *rendered* to text; the reference
+//! models consume the AST, the implementation consumes the text.
+
+use crate::refmodel::value::{BinOp, PREC_NEG, PREC_NOT, V};
+
+#[derive(Clone, Debug, PartialEq)]
+pub enum Expr {
+    /// literal with its source spelling
+    Lit(V, String),
+    Var(String),
+    /// array element
+    Arr(String, Vec<Expr>),
+    /// built-in function
+    Call(String, Vec<Expr>),
+    /// user function
+    Fn(String, Vec<Expr>),
+    Bin(BinOp, Box<Expr>, Box<Expr>),
+    Neg(Box<Expr>),
+    Not(Box<Expr>),
+    Plus(Box<Expr>),
+    Paren(Box<Expr>),
+}
+
+pub fn int(n: i16) -> Expr {
+    if n < 0 {
+        Expr::Neg(Box::new(Expr::Lit(V::Int(-n), format!("{}", -n))))
+    } else {
+        Expr::Lit(V::Int(n), format!("{}", n))
+    }
+}
+pub fn strlit(s: &str) -> Expr {
+    Expr::Lit(V::s(s), format!("\"{}\"", s))
+}
+pub fn var(n: &str) -> Expr {
+    Expr::Var(n.to_string())
+}
+pub fn bin(op: BinOp, a: Expr, b: Expr) -> Expr {
+    Expr::Bin(op, Box::new(a), Box::new(b))
+}
+
+impl Expr {
+    fn prec(&self) -> u8 {
+        match self {
+            Expr::Bin(op, _, _) => op.prec(),
+            Expr::Neg(_) | Expr::Plus(_) => PREC_NEG,
+            Expr::Not(_) => PREC_NOT,
+            _ => 100,
+        }
+    }
+
+    /// Render with the minimal parentheses the precedence table requires
+    /// (left associative: a right operand of equal precedence is parenthesised).
+    pub fn render(&self) -> String {
+        match self {
+            Expr::Lit(_, s) => s.clone(),
+            Expr::Var(n) => n.clone(),
+            Expr::Arr(n, a) | Expr::Call(n, a) | Expr::Fn(n, a) => {
+                if a.is_empty() && !matches!(self, Expr::Arr(..)) {
+                    n.clone()
+                } else {
+                    format!("{}({})", n, a.iter().map(|e| e.render()).collect::<Vec<_>>().join(","))
+                }
+            }
+            Expr::Paren(e) => format!("({})", e.render()),
+            Expr::Bin(op, a, b) => {
+                let p = op.prec();
+                let l = if a.prec() < p { format!("({})", a.render()) } else { a.render() };
+                let r = if b.prec() <= p { format!("({})", b.render()) } else { b.render() };
+                if op.is_word() {
+                    format!("{} {} {}", l, op.text(), r)
+                } else {
+                    format!("{}{}{}", l, op.text(), r)
+                }
+            }
+            Expr::Neg(e) => {
+                // operand of unary minus binds at 12: only ^ and primaries go bare
+                let s = if e.prec() <= PREC_NEG { format!("({})", e.render()) } else { e.render() };
+                format!("-{}", s)
+            }
+            Expr::Plus(e) => {
+                let s = if e.prec() <= PREC_NEG { format!("({})", e.render()) } else { e.render() };
+                format!("+{}", s)
+            }
+            Expr::Not(e) => {
+                let s = if e.prec() < PREC_NOT { format!("({})", e.render()) } else { e.render() };
+                format!("NOT {}", s)
+            }
+        }
+    }
+
+    /// Fully parenthesised rendering.
+    pub fn render_full(&self) -> String {
+        match self {
+            Expr::Bin(op, a, b) => {
+                if op.is_word() {
+                    format!("({} {} {})", a.render_full(), op.text(), b.render_full())
+                } else {
+                    format!("({}{}{})", a.render_full(), op.text(), b.render_full())
+                }
+            }
+            Expr::Neg(e) => format!("(-{})", e.render_full()),
+            Expr::Plus(e) => format!("(+{})", e.render_full()),
+            Expr::Not(e) => format!("(NOT {})", e.render_full()),
+            Expr::Paren(e) => e.render_full(),
+            Expr::Arr(n, a) | Expr::Call(n, a) | Expr::Fn(n, a) if !a.is_empty() => {
+                format!("{}({})", n, a.iter().map(|e| e.render_full()).collect::<Vec<_>>().join(","))
+            }
+            _ => self.render(),
+        }
+    }
+}
+
+#[derive(Clone, Debug, PartialEq)]
+pub enum PItem {
+    E(Expr),
+    Semi,
+    Comma,
+}
+
+#[derive(Clone, Debug, PartialEq)]
+pub enum LVal {
+    Var(String),
+    Arr(String, Vec<Expr>),
+}
+
+impl LVal {
+    pub fn render(&self) -> String {
+        match self {
+            LVal::Var(n) => n.clone(),
+            LVal::Arr(n, a) => format!("{}({})", n, a.iter().map(|e| e.render()).collect::<Vec<_>>().join(",")),
+        }
+    }
+    pub fn name(&self) -> &str {
+        match self {
+            LVal::Var(n) | LVal::Arr(n, _) => n,
+        }
+    }
+}
+
+#[derive(Clone, Debug, PartialEq)]
+pub enum Branch {
+    /// THEN n / ELSE n
+    Line(u16),
+    Stmts(Vec<Stmt>),
+}
+
+#[derive(Clone, Debug, PartialEq)]
+pub enum Stmt {
+    Print(Vec<PItem>),
+    Let(LVal, Expr),
+    Goto(u16),
+    Gosub(u16),
+    Return,
+    OnGoto(Expr, Vec<u16>),
+    OnGosub(Expr, Vec<u16>),
+    /// IF c THEN ... [ELSE ...]
+    If(Expr, Branch, Option<Branch>),
+    /// IF c GOTO n [ELSE ...]
+    IfGoto(Expr, u16, Option<Branch>),
+    For(String, Expr, Expr, Option<Expr>),
+    Next(Vec<String>),
+    While(Expr),
+    Wend,
+    End,
+    Stop,
+    Tron,
+    Troff,
+    Input(Option<String>, Vec<LVal>),
+    Rem(String),
+    Empty,
+    Data(Vec<Expr>),
+    Read(Vec<LVal>),
+    Restore(Option<u16>),
+    Def(String, Vec<String>, Expr),
+    Dim(Vec<(String, Vec<Expr>)>),
+    Erase(Vec<String>),
+    Clear,
+    Swap(LVal, LVal),
+    DefType(&'static str, char, char),
+    MidAssign(LVal, Expr, Option<Expr>, Expr),
+    /// verbatim text (statements only the implementation interprets)
+    Raw(String),
+}
+
+fn render_branch(b: &Branch) -> String {
+    match b {
+        Branch::Line(n) => format!("{}", n),
+        Branch::Stmts(v) => render_stmts(v),
+    }
+}
+
+pub fn render_stmts(v: &[Stmt]) -> String {
+    v.iter().map(|s| s.render()).collect::<Vec<_>>().join(":")
+}
+
+fn list(v: &[u16]) -> String {
+    v.iter().map(|n| n.to_string()).collect::<Vec<_>>().join(",")
+}
+
+impl Stmt {
+    /// Canonical spelling: the form LIST prints.
+    pub fn render(&self) -> String {
+        match self {
+            Stmt::Print(items) => {
+                let mut s = String::from("PRINT");
+                let mut first = true;
+                for it in items {
+                    match it {
+                        PItem::E(e) => {
+                            if first {
+                                s.push(' ');
+                            }
+                            s.push_str(&e.render());
+                        }
+                        PItem::Semi => s.push(';'),
+                        PItem::Comma => s.push(','),
+                    }
+                    first = false;
+                }
+                s
+            }
+            Stmt::Let(l, e) => format!("{}={}", l.render(), e.render()),
+            Stmt::Goto(n) => format!("GOTO {}", n),
+            Stmt::Gosub(n) => format!("GOSUB {}", n),
+            Stmt::Return => "RETURN".into(),
+            Stmt::OnGoto(e, v) => format!("ON {} GOTO {}", e.render(), list(v)),
+            Stmt::OnGosub(e, v) => format!("ON {} GOSUB {}", e.render(), list(v)),
+            Stmt::If(c, t, e) => {
+                let mut s = format!("IF {} THEN {}", c.render(), render_branch(t));
+                if let Some(e) = e {
+                    s.push_str(&format!(" ELSE {}", render_branch(e)));
+                }
+                s
+            }
+            Stmt::IfGoto(c, n, e) => {
+                let mut s = format!("IF {} GOTO {}", c.render(), n);
+                if let Some(e) = e {
+                    s.push_str(&format!(" ELSE {}", render_branch(e)));
+                }
+                s
+            }
+            Stmt::For(v, a, b, st) => {
+                let mut s = format!("FOR {}={} TO {}", v, a.render(), b.render());
+                if let Some(st) = st {
+                    s.push_str(&format!(" STEP {}", st.render()));
+                }
+                s
+            }
+            Stmt::Next(v) => {
+                if v.is_empty() {
+                    "NEXT".into()
+                } else {
+                    format!("NEXT {}", v.join(","))
+                }
+            }
+            Stmt::While(c) => format!("WHILE {}", c.render()),
+            Stmt::Wend => "WEND".into(),
+            Stmt::End => "END".into(),
+            Stmt::Stop => "STOP".into(),
+            Stmt::Tron => "TRON".into(),
+            Stmt::Troff => "TROFF".into(),
+            Stmt::Input(p, vars) => {
+                let vs = vars.iter().map(|v| v.render()).collect::<Vec<_>>().join(",");
+                match p {
+                    Some(p) => format!("INPUT \"{}\";{}", p, vs),
+                    None => format!("INPUT {}", vs),
+                }
+            }
+            Stmt::Rem(t) => {
+                if t.is_empty() {
+                    "REM".into()
+                } else {
+                    format!("REM {}", t)
+                }
+            }
+            Stmt::Empty => String::new(),
+            Stmt::Data(v) => format!("DATA {}", v.iter().map(|e| e.render()).collect::<Vec<_>>().join(",")),
+            Stmt::Read(v) => format!("READ {}", v.iter().map(|e| e.render()).collect::<Vec<_>>().join(",")),
+            Stmt::Restore(n) => match n {
+                Some(n) => format!("RESTORE {}", n),
+                None => "RESTORE".into(),
+            },
+            Stmt::Def(n, p, e) => format!("DEF {}({})={}", n, p.join(","), e.render()),
+            Stmt::Dim(v) => format!(
+                "DIM {}",
+                v.iter()
+                    .map(|(n, d)| format!("{}({})", n, d.iter().map(|e| e.render()).collect::<Vec<_>>().join(",")))
+                    .collect::<Vec<_>>()
+                    .join(",")
+            ),
+            Stmt::Erase(v) => format!("ERASE {}", v.join(",")),
+            Stmt::Clear => "CLEAR".into(),
+            Stmt::Swap(a, b) => format!("SWAP {},{}", a.render(), b.render()),
+            Stmt::DefType(w, a, b) => {
+                if a == b {
+                    format!("{} {}", w, a)
+                } else {
+                    format!("{} {}-{}", w, a, b)
+                }
+            }
+            Stmt::MidAssign(l, p, n, e) => match n {
+                Some(n) => format!("MID$({},{},{})={}", l.render(), p.render(), n.render(), e.render()),
+                None => format!("MID$({},{})={}", l.render(), p.render(), e.render()),
+            },
+            Stmt::Raw(t) => t.clone(),
+        }
+    }
+
+    pub fn is_if(&self) -> bool {
+        matches!(self, Stmt::If(..) | Stmt::IfGoto(..))
+    }
+}
+
+#[derive(Clone, Debug, PartialEq)]
+pub struct Line {
+    pub num: u16,
+    pub stmts: Vec<Stmt>,
+}
+
+impl Line {
+    pub fn render(&self) -> String {
+        format!("{} {}", self.num, render_stmts(&self.stmts))
+    }
+}
+
+#[derive(Clone, Debug, PartialEq, Default)]
+pub struct Prog {
+    pub lines: Vec<Line>,
+}
+
+impl Prog {
+    pub fn render(&self) -> Vec<String> {
+        self.lines.iter().map(|l| l.render()).collect()
+    }
+    pub fn text(&self) -> String {
+        self.render().join(" / ")
+    }
+    pub fn line_numbers(&self) -> Vec<u16> {
+        self.lines.iter().map(|l| l.num).collect()
+    }
+}
+
+/// Compositions of n statements over consecutive lines: bit i set = line break
+/// after statement i. An IF must be last on its line (its clauses extend to
+/// the end of the line), so compositions that put a statement after an IF on
+/// the same line are skipped by `compose`.
+pub fn compose(stmts: &[Stmt], mask: u32, first: u16, step: u16) -> Option<Prog> {
+    let mut lines = vec![];
+    let mut cur = vec![];
+    let mut num = first;
+    for (i, s) in stmts.iter().enumerate() {
+        if let Some(last) = cur.last() {
+            let last: &Stmt = last;
+            if last.is_if() || matches!(last, Stmt::Rem(_)) {
+                return None;
+            }
+        }
+        cur.push(s.clone());
+        if mask & (1 << i) != 0 || i + 1 == stmts.len() {
+            if render_stmts(&cur).trim().is_empty() {
+                // a bare line number deletes the line: not a program line
+                return None;
+            }
+            lines.push(Line { num, stmts: std::mem::take(&mut cur) });
+            num += step;
+        }
+    }
+    Some(Prog { lines })
+}
+
+pub fn lines_of_mask(n: usize, mask: u32) -> usize {
+    (0..n.saturating_sub(1)).filter(|i| mask & (1 << i) != 0).count() + 1
+}
